@@ -138,6 +138,13 @@ func (d *duplexHTTPCall) CloseWrite() error {
 	// forever. To make sure users don't have to worry about this, the generated
 	// code for unary, client streaming, and server streaming RPCs must call
 	// CloseWrite automatically rather than requiring the user to do it.
+	if err := d.ctx.Err(); err != nil {
+		// Closing the pipe cleanly would race with the transport's abort of the
+		// request: the server could see a clean end of a request stream that
+		// was in fact cut short. The call is over; say so.
+		d.SetError(err)
+		return wrapIfContextError(err)
+	}
 	return d.requestBodyWriter.Close()
 }
 
